@@ -456,11 +456,37 @@ def coq_kind(k):
     fail("kind %r" % (k,))
 
 
+def string_names(sc):
+    """every string of the schema -> Coq identifier of its byte-list definition (case files refer to these)"""
+    strs = []
+    for n in sc["order"]:
+        if n in sc["enums"]:
+            for v in sc["enums"][n]["variants"]:
+                strs += [v["json"]] + v["aliases"]
+        else:
+            for f in sc["structs"][n]["fields"]:
+                if not f["flatten"]:
+                    strs += [f["json"]] + f["aliases"]
+    names, used = {}, set()
+    for x in strs:
+        if x in names:
+            continue
+        base = "str_" + re.sub(r"[^A-Za-z0-9]", "_", x)
+        nm, k = base, 1
+        while nm in used:
+            k += 1; nm = "%s_%d" % (base, k)
+        used.add(nm); names[x] = nm
+    return names
+
+
 def gen(src_root):
     sc = load(src_root)
     structs, enums = sc["structs"], sc["enums"]
     out = ["(* GENERATED by translators/json_schema.py from passkey-types/src/webauthn.rs and webauthn/** - do not edit *)",
            "From PK Require Import Wire.Json.", "Open Scope N_scope.", ""]
+    for x, nm in string_names(sc).items():
+        out.append("Definition %s : bytes := %s. (* %s *)" % (nm, blit(x), x))
+    out.append("")
     for n in sc["order"]:
         if n not in enums:
             continue
